@@ -91,7 +91,7 @@ def dispatch(ctx, binp):
             args += ["--response-header", "Abc: v"]
         p = subprocess.Popen(args, stdout=subprocess.DEVNULL, stderr=subprocess.DEVNULL)
         try:
-            for _ in range(100):
+            for _ in range(300):
                 try:
                     socket.create_connection(("127.0.0.1", addr), timeout=0.2).close()
                     break
